@@ -33,6 +33,9 @@ def as_int(x, scale):
 
 def observe_case(a, th, tracked, sample_lists, cmap, tmap, tscale, rng):
     tables = gen.build_tables(a, cmap, tmap)
+    if rng.random() < 0.4:
+        gen.add_user_flags(tables, rng)      # user flag bits never matter
+        tables.build_index()
     ts = tables.tree_sequence()
     a2 = gen.with_index(a, tables)
     N = ts.num_nodes
